@@ -61,6 +61,8 @@ func TestVerifC05DistributedQuery(t *testing.T) {
 		var sumV float64
 		var sumU uint64
 		base := int64(1600000000) - int64(1600000000)%3600
+		// a field name that no other case uses: a field lookup answered with another case's reply shows
+		caseField := fmt.Sprintf("c%d", vkCaseSeq)
 		twoMeasurements := rapid.Bool().Draw(rt, "twoMeasurements")
 		nm := 1
 		if twoMeasurements {
@@ -76,12 +78,12 @@ func TestVerifC05DistributedQuery(t *testing.T) {
 				total++
 				ptTimes = append(ptTimes, base+int64(g)*3600+int64(i))
 				pts = append(pts, models.MustNewPoint("m", models.NewTags(map[string]string{"h": fmt.Sprintf("g%di%d", g, i)}),
-					models.Fields{"v": v, "u": u}, time.Unix(base+int64(g)*3600+int64(i), 0)))
+					models.Fields{"v": v, "u": u, caseField: 1.0}, time.Unix(base+int64(g)*3600+int64(i), 0)))
 				if twoMeasurements {
 					// the twin in a second measurement: statements with two sources must read every shard once per source
 					ptTimes = append(ptTimes, base+int64(g)*3600+int64(i))
 					pts = append(pts, models.MustNewPoint("n", models.NewTags(map[string]string{"h": fmt.Sprintf("g%di%d", g, i)}),
-						models.Fields{"v": v + 1000, "u": u}, time.Unix(base+int64(g)*3600+int64(i), 0)))
+						models.Fields{"v": v + 1000, "u": u, caseField: 1.0}, time.Unix(base+int64(g)*3600+int64(i), 0)))
 				}
 			}
 		}
@@ -165,13 +167,24 @@ func TestVerifC05DistributedQuery(t *testing.T) {
 			{"showMeasurements", "SHOW MEASUREMENTS", func(r vkResult) string { return vkWantContains(r, "[m]") }},
 			{"showTagKeys", "SHOW TAG KEYS", func(r vkResult) string { return vkWantContains(r, "[h]") }},
 			{"showTagValues", "SHOW TAG VALUES WITH KEY = h", func(r vkResult) string { return vkWantRows(r, nm*total) }},
-			{"showFieldKeys", "SHOW FIELD KEYS", func(r vkResult) string { return vkWantContains(r, "[v float]") }},
+			{"showFieldKeys", "SHOW FIELD KEYS", func(r vkResult) string {
+				if m := vkWantContains(r, "[v float]"); m != "" {
+					return m
+				}
+				return vkWantContains(r, "["+caseField+" float]")
+			}},
+			{"selectStar", "SELECT * FROM m", func(r vkResult) string {
+				if m := vkWantContains(r, caseField); m != "" {
+					return m
+				}
+				return vkWantRows(r, total)
+			}},
 			{"showSeries", "SHOW SERIES", func(r vkResult) string { return vkWantRows(r, nm*total) }},
 		}
 		// storage reads (Flux): every stored value exactly once - two fields per point
 		stmts = append(stmts,
-			vkStmt{"storageRead", fmt.Sprintf("storage %d %d", (base-3600)*1e9, (base+int64(groups+1)*3600)*1e9), func(r vkResult) string { return vkWantRows(r, 2*nm*total) }},
-			vkStmt{"storageRead", fmt.Sprintf("storage %d %d", (base-3600)*1e9, (base+int64(groups+1)*3600)*1e9), func(r vkResult) string { return vkWantRows(r, 2*nm*total) }})
+			vkStmt{"storageRead", fmt.Sprintf("storage %d %d", (base-3600)*1e9, (base+int64(groups+1)*3600)*1e9), func(r vkResult) string { return vkWantRows(r, 3*nm*total) }},
+			vkStmt{"storageRead", fmt.Sprintf("storage %d %d", (base-3600)*1e9, (base+int64(groups+1)*3600)*1e9), func(r vkResult) string { return vkWantRows(r, 3*nm*total) }})
 		if twoMeasurements {
 			wantBoth := func(n int) func(r vkResult) string {
 				return func(r vkResult) string {
@@ -265,7 +278,7 @@ func TestVerifC05DistributedQuery(t *testing.T) {
 				if hi > base+int64(groups+1)*3600 {
 					hi = base + int64(groups+1)*3600
 				}
-				stmts = append(stmts, vkStmt{"storageReadBounded", fmt.Sprintf("storage %d %d", lo*1e9, hi*1e9) /* the range end is inclusive in this storage API */, func(r vkResult) string { return vkWantRows(r, 2*nm*nn) }})
+				stmts = append(stmts, vkStmt{"storageReadBounded", fmt.Sprintf("storage %d %d", lo*1e9, hi*1e9) /* the range end is inclusive in this storage API */, func(r vkResult) string { return vkWantRows(r, 3*nm*nn) }})
 			}
 			wantCount := func(r vkResult) string {
 				if n == 0 {
@@ -282,6 +295,11 @@ func TestVerifC05DistributedQuery(t *testing.T) {
 		}
 		st := rapid.SampledFrom(stmts).Draw(rt, "stmt")
 		r0 := vkExec(cl, coord, db, st.Text)
+		for try := 0; try < 3 && r0.Err != "" && (strings.Contains(r0.Err, "timeout") || strings.Contains(r0.Err, "deadline")); try++ {
+			// the cluster's internal timeouts are 2 s; on a heavily loaded machine a fault-free request can exceed them
+			time.Sleep(500 * time.Millisecond)
+			r0 = vkExec(cl, coord, db, st.Text)
+		}
 		if r0.Err != "" {
 			rt.Fatalf("%s fault-free %q on node %d failed: %s", verifkit.Sig("fault-free-query-error"), st.Text, coord, r0.Err)
 		}
@@ -307,7 +325,7 @@ func TestVerifC05DistributedQuery(t *testing.T) {
 			case 4, 5:
 				f = vkFault{Kind: "disabled"}
 			case 6:
-				if rapid.IntRange(0, 3).Draw(rt, "delayRare") == 0 {
+				if rapid.IntRange(0, 1).Draw(rt, "delayRare") == 0 {
 					if rapid.Bool().Draw(rt, "longDelay") {
 						f = vkFault{Kind: "delay", Delay: 2600 * time.Millisecond}
 						requestTimeOnly = false
